@@ -68,8 +68,9 @@ func init() {
 
 type env struct {
 	rec              *sim.RPCRecorder
-	open, auth       *rest.API
-	openURL, authURL string
+	open, auth, authT *rest.API
+	openURL, authURL  string
+	authTURL          string // credentials configured and tracing on
 	scriptErr        error
 	failRPC          map[string]error // per endpoint
 	answers          map[string]interface{}
@@ -79,9 +80,10 @@ type env struct {
 
 const user, pass = "verif-user", "verif-pass"
 
-func newAPI(rec *sim.RPCRecorder, creds map[string]string) (*rest.API, string, error) {
+func newAPI(rec *sim.RPCRecorder, creds map[string]string, tracing bool) (*rest.API, string, error) {
 	cfg := &rest.Config{}
 	cfg.Default()
+	cfg.Tracing = tracing // what cmdutils.SetupTracing switches on for a daemon started with tracing
 	addr, _ := ma.NewMultiaddr("/ip4/127.0.0.1/tcp/0")
 	cfg.HTTPListenAddr = []ma.Multiaddr{addr}
 	cfg.BasicAuthCredentials = creds
@@ -137,12 +139,17 @@ func setup(c *fw.Ctx) {
 		return nil
 	})
 	var err error
-	e.open, e.openURL, err = newAPI(e.rec, nil)
+	e.open, e.openURL, err = newAPI(e.rec, nil, false)
 	if err != nil {
 		fmt.Println("C11 setup:", err)
 		return
 	}
-	e.auth, e.authURL, err = newAPI(e.rec, map[string]string{user: pass})
+	e.auth, e.authURL, err = newAPI(e.rec, map[string]string{user: pass}, false)
+	if err != nil {
+		fmt.Println("C11 setup:", err)
+		return
+	}
+	e.authT, e.authTURL, err = newAPI(e.rec, map[string]string{user: pass}, true)
 	if err != nil {
 		fmt.Println("C11 setup:", err)
 		return
@@ -194,6 +201,7 @@ func teardown(c *fw.Ctx) {
 		defer cancel()
 		e.open.Shutdown(ctx)
 		e.auth.Shutdown(ctx)
+		e.authT.Shutdown(ctx)
 	}
 }
 
@@ -803,7 +811,12 @@ func authSweep(c *fw.Ctx, e *env, r *fw.Rand) {
 		{"<raw>", "Bearer " + pass}, {"<raw>", "Basic !!!"}, {"<raw>", "Basic " + base64.StdEncoding.EncodeToString([]byte(user))},
 		{"<raw>", "Basic " + base64.StdEncoding.EncodeToString([]byte(user+":"+pass+":x"))}, {"<raw>", "basic"}, {"<raw>", ""}}
 	rs := routes()
-	for _, cr := range bad {
+	for ci, cr := range bad {
+		// every second credential class is sent to the API that has tracing on
+		authURL, tr := e.authURL, ""
+		if (ci+c.CaseIdx())%2 == 1 {
+			authURL, tr = e.authTURL, "traced/"
+		}
 		for _, rt := range rs {
 			for _, m := range methods {
 				if !r.Chance(1, 3) && m != rt.method {
@@ -816,11 +829,11 @@ func authSweep(c *fw.Ctx, e *env, r *fw.Rand) {
 					body, ctype = rt.body()
 				}
 				e.rec.Reset()
-				res := e.do(m, e.authURL+p, body, ctype, cr)
+				res := e.do(m, authURL+p, body, ctype, cr)
 				if res.err != nil {
 					continue
 				}
-				c.Eval(fmt.Sprintf("auth/bad/%s/%s", rt.name, m))
+				c.Eval(fmt.Sprintf("auth/bad/%s%s/%s", tr, rt.name, m))
 				if res.status != http.StatusUnauthorized {
 					c.Violation("C11/auth/not-401/"+rt.name+"/"+m, fmt.Sprintf("%s %s without valid credentials answered %d", m, p, res.status), nil)
 				}
@@ -832,11 +845,11 @@ func authSweep(c *fw.Ctx, e *env, r *fw.Rand) {
 		for _, p := range append(unknownPaths, "/add", "/add?name=x") {
 			for _, m := range methods {
 				e.rec.Reset()
-				res := e.do(m, e.authURL+p, nil, "", cr)
+				res := e.do(m, authURL+p, nil, "", cr)
 				if res.err != nil {
 					continue
 				}
-				c.Eval("auth/bad/unknown-or-add/" + m)
+				c.Eval("auth/bad/" + tr + "unknown-or-add/" + m)
 				if res.status != http.StatusUnauthorized || len(e.rec.Calls()) != 0 {
 					c.Violation("C11/auth/unknown-path-not-401/"+m, fmt.Sprintf("%s %s without valid credentials answered %d, performed [%s]", m, p, res.status, callNames(e.rec.Calls())), nil)
 				}
@@ -844,7 +857,11 @@ func authSweep(c *fw.Ctx, e *env, r *fw.Rand) {
 		}
 	}
 	// right credentials behave like the open API
-	routeSweep(c, e, r, e.authURL, [2]string{user, pass}, "auth-ok")
+	if c.CaseIdx()%2 == 0 {
+		routeSweep(c, e, r, e.authURL, [2]string{user, pass}, "auth-ok")
+	} else {
+		routeSweep(c, e, r, e.authTURL, [2]string{user, pass}, "auth-ok-traced")
+	}
 }
 
 // ------------------------------------------------------------- add
